@@ -115,7 +115,7 @@ JOBS.append(dict(name='c16_pw_null_count', entry='h_pw_null_count', loop_contrac
                  defines=['CQV_PW=0', 'CQV_STATS_EXACT=8', 'CQV_PW_NULLS=1'], level='bounded',
                  bound='page reset, then 1..2 add_values calls of 0..4 rows each, max_def_level 0..3',
                  functions=['carquet_page_writer_reset', 'carquet_page_writer_add_values', 'carquet_page_writer_null_count'],
-                 est_s=30, wip=False, **dict(PW, props=['C16', 'C19'])))
+                 est_s=30, wip=False, **dict(PW, props=['C16', 'C19', 'C14'])))
 
 # 5. helpers: statistics_compare, range_overlaps (statistics.c), page_might_match (page_index.c): loop-free lemmas
 for t in ['i32', 'i64', 'float', 'double']:
